@@ -303,7 +303,7 @@ func onlyBuiltinLinesDiffer(a, b string) bool {
 
 // description values placed on every describable element
 var c13Descs = []string{"plain", "multi\nline", `say "hi"`, `ends with quote"`, `back\slash`, `has """ triple`, "  leading", "trailing  ", "\nleading newline", "trailing newline\n",
-	"tab\there", "é😀", `\"""`, "a\n  indented\n    more", `""`, "#not a comment", "a\n  \nb", "a\n\t\nb", "code:\n    x\n    \n    y", "a\n\nb", "x\\"}
+	"tab\there", "é😀", `\"""`, "a\n  indented\n    more", `""`, "#not a comment", "a\n  \nb", "a\n\t\nb", "code:\n    x\n    \n    y", "a\n\nb", "x\\", "np\U000e0001\u00ad\u2028", "\U0010fffd\""}
 
 // c13Described: a valid type system in which slot k carries the description; %d slots.
 var c13DescTemplate = []string{
@@ -339,7 +339,7 @@ func c13DescSchema(slot int, desc string) (string, int) {
 }
 
 // default values (and directive argument values) written as quoted and block strings
-var c13DefaultLits = []string{`"x"`, `"""one line"""`, "\"\"\"first\n  second\n  third\"\"\"", "\"\"\"\n  a\n    b\n  c\n\"\"\"", `"""ends with backslash\\"""`, `"""has \\""" inside"""`, "\"\"\"tab\there\"\"\"",
+var c13DefaultLits = []string{"\"np\U000e0001\u00ad\"", "[\"\U0010fffd\", {k: \"\u2028\U000e0001\"}]", `"x"`, `"""one line"""`, "\"\"\"first\n  second\n  third\"\"\"", "\"\"\"\n  a\n    b\n  c\n\"\"\"", `"""ends with backslash\\"""`, `"""has \\""" inside"""`, "\"\"\"tab\there\"\"\"",
 	"[\"\"\"a\n b\"\"\", \"c\"]", "{k: \"\"\"x\n  y\"\"\"}", `"""  leading"""`, `""" """`, "\"\"\"é😀\n  é\"\"\"",
 	"\"\"\"\n  a\n    b\n    c\n\"\"\"", "\"\"\"\n x\n   y\"\"\"", "\"\"\"\n\ta\n\t\tb\\\\\"\"\"", "{k: [\"\"\"\n  p\n    q\n\"\"\"]}"}
 
